@@ -29,13 +29,13 @@ Record adoc := { ad_rels : list arelspec; ad_attrs : option (list aattrspec);
                  ad_ctcs : option (list actc) }.
 
 (* ------------------------------------------------------------------------------- writer *)
-(* read_relation: a single-child relation that is neither (1,1) nor (0,1) is written as nothing *)
+(* read_relation: a single child under (1,1) / (0,1) is written plain / in brackets, everything else as a group *)
 Definition afm_item (r : relation) : option aitem :=
   match r_children r with
   | [c] =>
       if (r_min r =? 1)%Z && (r_max r =? 1)%Z then Some (ISingle false (name c))
       else if (r_min r =? 0)%Z && (r_max r =? 1)%Z then Some (ISingle true (name c))
-      else None
+      else Some (IGroup (z_to_string (r_min r)) (z_to_string (r_max r)) [name c])
   | cs => Some (IGroup (z_to_string (r_min r)) (z_to_string (r_max r)) (map name cs))
   end.
 
